@@ -1211,10 +1211,10 @@ class Call(_CallOrLoad, Op):
 
     @property
     def num_out(self) -> int:
-        return len(self.signature.body.output)
+        return len(self.instantiation.output)
 
     def _function_port_offset(self) -> PortOffset:
-        return len(self.signature.body.input)
+        return len(self.instantiation.input)
 
     def port_kind(self, port: InPort | OutPort) -> tys.Kind:
         match port:
